@@ -47,6 +47,7 @@ type c05CallObs struct {
 
 type c05Obs struct {
 	Calls     []*c05CallObs `json:"calls"`
+	Leftover  string        `json:"leftover,omitempty"`  // library goroutines still alive after both ends were closed and the release bound passed
 	LostAtEnd bool          `json:"lostAtEnd,omitempty"` // the channel was no longer established after the last step
 	Stream    []string      `json:"stream"`              // tags of responses surfaced on RespCmdChan
 	SentTags  []string      `json:"sentTags"`            // tag of every response the peer sent, in order ("id#n")
@@ -312,6 +313,12 @@ func runC05(c *c05Case) *c05Obs {
 			if st.Call < len(calls) {
 				calls[st.Call].cancel()
 			}
+		case "race":
+			// the caller's context ends and the response arrives at the same moment: no settling in between
+			if st.Call < len(calls) {
+				calls[st.Call].cancel()
+			}
+			respond(st.ID)
 		case "sleep":
 			time.Sleep(time.Duration(st.Ms) * time.Millisecond)
 		case "drain":
@@ -338,8 +345,10 @@ func runC05(c *c05Case) *c05Obs {
 	<-streamDone
 	time.Sleep(6 * time.Second)
 	synctest.Wait()
-	if lib, other := bubbleLeftovers(); len(lib)+len(other) > 0 {
-		obs.Note = "harness: goroutines outlive the case:\n" + strings.Join(append(lib, other...), "\n--\n")
+	if lib, other := bubbleLeftovers(); len(lib) > 0 {
+		obs.Leftover = strings.Join(lib, "\n--\n")
+	} else if len(other) > 0 {
+		obs.Note = "harness: goroutines outlive the case:\n" + strings.Join(other, "\n--\n")
 	}
 	return obs
 }
@@ -352,6 +361,14 @@ type c05Exp struct {
 }
 
 func c05Model(c *c05Case) ([]c05Exp, []string) {
+	exp, stream, _ := c05ModelRace(c)
+	return exp, stream
+}
+
+// c05ModelRace also returns, per call index, the response tag that raced with the end of that call's context: the call
+// returns either that response or its context's error, and in the second case the response belongs on the stream.
+func c05ModelRace(c *c05Case) ([]c05Exp, []string, map[int]string) {
+	raced := map[int]string{}
 	type pend struct {
 		call     int
 		deadline int // virtual ms, -1 none
@@ -398,6 +415,23 @@ func c05Model(c *c05Case) ([]c05Exp, []string) {
 					delete(pending, id)
 				}
 			}
+		case "race":
+			if p, ok := pending[st.ID]; ok && p.call == st.Call {
+				sent[st.ID]++
+				tag := fmt.Sprintf("%s#%d", st.ID, sent[st.ID])
+				exp[p.call] = c05Exp{Outcome: "response-or-ctx", Tag: tag}
+				raced[p.call] = tag
+				delete(pending, st.ID)
+			} else {
+				// the call is no longer pending (or another call holds the id): an ordinary cancellation and an ordinary response
+				for id, q := range pending {
+					if q.call == st.Call {
+						exp[q.call] = c05Exp{Outcome: "ctx"}
+						delete(pending, id)
+					}
+				}
+				deliver(st.ID)
+			}
 		case "sleep":
 			now += st.Ms
 			for id, p := range pending {
@@ -408,7 +442,7 @@ func c05Model(c *c05Case) ([]c05Exp, []string) {
 			}
 		}
 	}
-	return exp, stream
+	return exp, stream, raced
 }
 
 func judgeC05(c *c05Case, obs *c05Obs, o *Outcome) {
@@ -421,7 +455,7 @@ func judgeC05(c *c05Case, obs *c05Obs, o *Outcome) {
 		o.Fail("C05/harness", "%s", obs.Note)
 		return
 	}
-	exp, stream := c05Model(c)
+	exp, stream, raced := c05ModelRace(c)
 	inflight, nonIdentity := 0, false
 	for _, st := range c.Steps {
 		switch st.Op {
@@ -432,6 +466,7 @@ func judgeC05(c *c05Case, obs *c05Obs, o *Outcome) {
 		}
 	}
 	lost := false
+	optional := map[string]bool{}
 	for i, co := range obs.Calls {
 		e := exp[i]
 		if co.Returned && co.Err != "" && !co.CtxErr && !co.DupErr && co.Lost {
@@ -459,6 +494,19 @@ func judgeC05(c *c05Case, obs *c05Obs, o *Outcome) {
 			if !co.DupErr {
 				o.Fail("C05/reused-pending-id-not-rejected", "call #%d reuses id %q while it is pending; result: resp=%q err=%q", i, co.ID, co.RespTag, co.Err)
 			}
+		case "response-or-ctx":
+			o.Class("response-raced-with-cancellation")
+			if co.Err == "" {
+				if co.RespTag != e.Tag {
+					o.Fail("C05/wrong-response-instance", "call #%d (id %q) returned response %q, expected %q or its context's error", i, co.ID, co.RespTag, e.Tag)
+				}
+			} else if !co.CtxErr {
+				o.Fail("C05/error-not-context", "call #%d (id %q) failed with %q, expected response %s or its context's error", i, co.ID, co.Err, e.Tag)
+			} else {
+				// the caller left with its context's error. The response met a request that was still pending when it arrived (then
+				// it is consumed with it) or one that had just gone (then it belongs on the stream): both are within the statement
+				optional[raced[i]] = true
+			}
 		case "ctx", "ctx-at-end":
 			if co.Err == "" {
 				o.Fail("C05/unrelated-response-delivered", "call #%d (id %q) has no matching response but returned %q", i, co.ID, co.RespTag)
@@ -473,7 +521,14 @@ func judgeC05(c *c05Case, obs *c05Obs, o *Outcome) {
 		lost = true
 	}
 	// conservation: everything the peer sent went to a caller or to the stream, and nothing else appeared
-	got := append([]string(nil), obs.Stream...)
+	var got []string
+	for _, tag := range obs.Stream {
+		if optional[tag] {
+			optional[tag] = false // at most once
+			continue
+		}
+		got = append(got, tag)
+	}
 	want := append([]string(nil), stream...)
 	sort.Strings(got)
 	sort.Strings(want)
@@ -485,6 +540,9 @@ func judgeC05(c *c05Case, obs *c05Obs, o *Outcome) {
 			sig = "C05/unexpected-response-on-stream"
 		}
 		o.Fail(sig, "responses surfaced on the response stream: %v, expected %v (peer sent %v)", obs.Stream, stream, obs.SentTags)
+	}
+	if obs.Leftover != "" {
+		o.Fail("C05/goroutine-stuck", "after the channel was closed and the release bound had passed, library goroutines were still alive (a receiver that cannot hand over a response?):\n%s", truncate(obs.Leftover, 1500))
 	}
 	if len(stream) > 0 {
 		o.Class("has-unmatched-responses")
@@ -498,14 +556,23 @@ func genC05(rt *rapid.T) *c05Case {
 	ids := []string{"a", "b", "c", "d", "e", "f", "g", "h"}
 	n := rapid.IntRange(1, 40).Draw(rt, "steps")
 	ncalls := 0
+	var callIDs []string
+	races := 0
 	for i := 0; i < n; i++ {
-		switch rapid.IntRange(0, 9).Draw(rt, "op") {
+		switch rapid.IntRange(0, 10).Draw(rt, "op") {
+		case 10:
+			if ncalls > 0 {
+				k := rapid.IntRange(0, ncalls-1).Draw(rt, "raceWhich")
+				c.Steps = append(c.Steps, c05Step{Op: "race", Call: k, ID: callIDs[k]})
+				races++
+			}
 		case 0, 1, 2, 3:
 			st := c05Step{Op: "call", ID: rapid.SampledFrom(ids).Draw(rt, "id"), Ctx: rapid.SampledFrom([]string{"none", "none", "deadline", "cancel"}).Draw(rt, "ctx")}
 			if st.Ctx == "deadline" {
 				st.Ms = rapid.IntRange(10, 5000).Draw(rt, "ms")
 			}
 			ncalls++
+			callIDs = append(callIDs, st.ID)
 			c.Steps = append(c.Steps, st)
 		case 4, 5, 6:
 			c.Steps = append(c.Steps, c05Step{Op: "respond", ID: rapid.SampledFrom(append(ids, "zz")).Draw(rt, "rid")})
@@ -523,6 +590,10 @@ func genC05(rt *rapid.T) *c05Case {
 		case 9:
 			c.Steps = append(c.Steps, c05Step{Op: "sleep", Ms: rapid.IntRange(1, 3000).Draw(rt, "sleep")})
 		}
+	}
+	if races > 0 {
+		// whatever happened in the race, the session goes on: one more request gets its response
+		c.Steps = append(c.Steps, c05Step{Op: "call", ID: "after-race", Ctx: "none"}, c05Step{Op: "respond", ID: "after-race"})
 	}
 	return c
 }
